@@ -33,7 +33,7 @@ BOUNDS = {
 }
 OUTSIDE = c09.OUTSIDE + "; rows of logs longer than those produced by 3 calls"
 REQUIRED_CLASSES = ["row_reload_checked", "row_penalty_checked", "take_best_checked", "take_best_reload_taken", "failing_solve",
-                    "get_knob_values_checked", "reload_by_tag_checked"]
+                    "get_knob_values_checked", "reload_by_tag_checked", "row_after_reload_checked"]
 REPLAY_REALS = ["fraction"]
 PROFILE_CASES = 2
 TASKS_PER_CHILD = 10
@@ -185,6 +185,15 @@ def run_case(ex, case):
         ta = "".join("y" if t.active else "n" for t in opt._err.targets)
         if va != vact or ta != tact:
             ex.fail(f"reload({i}) leaves flags {va}/{ta}, row {i} records {vact}/{tact}", det2)
+            return
+        # reload() logs the point it has just restored: that new row must be truthful too (masks as the
+        # flags now are, penalty of the restored point under those masks)
+        OC.note(ex, "row_after_reload_checked")
+        if log["vary_active"][-1] != va or log["target_active"][-1] != ta:
+            ex.fail(f"the row logged by reload({i}) records masks {log['vary_active'][-1]}/{log['target_active'][-1]} while the active flags are {va}/{ta}", det2)
+            return
+        if not ex.prove(term(log["penalty"][-1]) == term(expected_penalty(P, now, ta)),
+                        f"the row logged by reload({i}) records a penalty that differs from an independent evaluation at the restored knobs and flags", det2):
             return
     # secondary read/reload entry points on the same log: get_knob_values(i), reload(tag=...), log()
     for i in range(nrows):
